@@ -236,6 +236,12 @@ def _feed(rec, what, case, D, chunks, carry="buffer", ranks=None):
     rots, vels, poss, covs = [], [], [], []
     i = 0
     for j, c in enumerate(chunks):
+        if j == 1 and case.get("seed", 0) % 5 == 2:
+            # the stream continues on a copy.deepcopy of the integrator (nn.Module semantics: same buffers, independent object)
+            import copy as _copy
+            with rec.sut("copy.deepcopy(IMUPreintegrator)"):
+                m = _copy.deepcopy(m)
+            rec.label("integrator_deepcopied_between_chunks")
         rk = 3 if ranks is None else ranks[j]
         sl = (slice(None), slice(i, i + c))
         args = [D.dt[sl], D.gyro[sl], D.acc[sl], None if D.rot is None else D.rot[sl]]
